@@ -102,12 +102,12 @@ class Ctx:
         return outp, p.returncode, wall, " ".join(cmd[2:])
 
     def tlc_mc(self, module, cfg_text, name, workers=4, timeout=900, export=False, exhaustive=True,
-               simulate=None):
+               simulate=None, java_opts=""):
         """Model-check MC_<module>; returns dict(states, distinct, out). Any error => ToolError."""
         extra = []
         if simulate:
             extra = ["-simulate", simulate, "-seed", str(self.seed)]
-        outp, rc, wall, cmd = self._tlc(module, cfg_text, name, workers, timeout, extra=extra)
+        outp, rc, wall, cmd = self._tlc(module, cfg_text, name, workers, timeout, extra=extra, java_opts=java_opts)
         gen = dist = None
         errors = []
         with open(outp) as f:
